@@ -887,3 +887,58 @@ fn c08_glue_record_boundary() {
     }
     std::mem::forget(req);
 }
+
+
+// ------------------------------------------------------------------------------------------------ C09: AsyncBufRead (poll_fill_buf / consume) against the parser contract
+
+// @harness name=c09_glue_fill_buf props=C09,C08 tier=quick timeout=2400 rmbody=ioerr,nogrow,nowaiters mem=20 unwindset=Request::<'_,.*>::poll_input$:5;Request::<'_,.*>::poll_output$:4;drop_glue::<.slab::Entry<.*>.>$:2
+// @bound ONE poll of Request::poll_fill_buf followed by consume(k) against the parser contract: 0..2 stream bytes already buffered, 0 or 2 reply bytes pending; reader <= 2 reads, <= 1 Pending, then EOF/error; writer <= 1 short write, <= 1 Pending; parser contract as in c09_glue_poll_read_*
+// @functions Request::poll_fill_buf, Request::consume, Request::poll_input (dest = None), stream::Parser::{stream_buffer,consume_stream}
+#[kani::proof]
+#[kani::unwind(8)]
+#[kani::stub(std::hash::RandomState::new, fixed_random_state)]
+#[kani::stub(stream::Parser::parse, sv::parse_contract)]
+#[kani::stub(stream::Parser::compress, sv::compress_contract)]
+fn c09_glue_fill_buf() {
+    let cfg = sv::cfg1();
+    let gs: [u8; 8] = kani::any();
+    unsafe { sv::GS_STREAM = gs; sv::GS_ERR_BUDGET = 1; }
+    let buffered: usize = kani::any();
+    kani::assume(buffered <= 2);
+    let pending_out: usize = if kani::any() { 2 } else { 0 };
+    let mut r = CountR::new(2, 1);
+    r.fail = if kani::any() { 1 } else { 0 };
+    let mut req = glue_request(&cfg, r, CountW::new(1, 1), fcgi::Role::Responder, Some(fcgi::RecordType::Stdin), true, buffered, pending_out);
+    let mut cx = noop_cx();
+    let got = match Pin::new(&mut req).poll_fill_buf(&mut cx) {
+        Poll::Ready(Ok(slice)) => {
+            let n = slice.len();
+            assert!(n == unsafe { sv::GS_POS }, "C09: the buffer handed out is not exactly the stream bytes delivered so far");
+            let i: usize = kani::any();
+            if i < n { assert!(slice[i] == gs[i], "C09: buffered read hands out bytes that are not the stream's bytes in order"); }
+            if buffered > 0 { assert!(n == buffered && unsafe { sv::GS_PARSE_CALLS } == 0, "C09: already buffered data must be handed out without parsing or touching the transport"); }
+            if n == 0 { assert!(unsafe { sv::GS_END }, "C09/C12: empty buffer (end of file) although the stream has not ended"); kani::cover!(true, "end of stream"); }
+            kani::cover!(n == 2 && buffered == 0, "two fresh bytes parsed into the stream buffer");
+            Some(n)
+        }
+        Poll::Ready(Err(e)) => { std::mem::forget(e); None }
+        Poll::Pending => {
+            if req.input.last_pending {
+                assert!(req.parser.output_buffer().is_empty(), "C08:reply-owed-at-read-pending: waiting for client input while replies are still in the parser's output buffer");
+            }
+            assert!(req.parser.stream_buffer().len() == unsafe { sv::GS_POS }, "C09: delivered stream bytes lost by a Pending result");
+            None
+        }
+    };
+    if let Some(n) = got {
+        let k: usize = kani::any();
+        Pin::new(&mut req).consume(k);
+        let left = req.parser.stream_buffer();
+        let c = if k < n { k } else { n };
+        assert!(left.len() == n - c, "C09: consume(k) must drop exactly min(k, available) bytes");
+        let i: usize = kani::any();
+        if i < left.len() { assert!(left[i] == gs[c + i], "C09: bytes after consume(k) are not the rest of the stream in order"); }
+        kani::cover!(k > 0 && k < n, "partial consume");
+    }
+    std::mem::forget(req);
+}
